@@ -369,8 +369,28 @@ func vGenPatSetC27(t *rapid.T, paths []string, dirsWithKids []string, srcDepth i
 			shapes[s] = true
 		}
 	}
-	kind := rapid.SampledFrom([]string{"plain", "plain", "plain", "fold", "fold", "both", "negation", "negation", "reinclude"}).Draw(t, "listkind")
+	kind := rapid.SampledFrom([]string{"plain", "plain", "plain", "fold", "fold", "both", "both-aimed", "negation", "negation", "reinclude"}).Draw(t, "listkind")
+	if kind == "both-aimed" && len(paths) < 2 {
+		kind = "both"
+	}
 	switch kind {
+	case "both-aimed":
+		// one anchored (full path) pattern in the case-insensitive list and another one, for an entry
+		// somewhere else in the tree, in the case-sensitive list: each list alone says "no child of
+		// this directory can match" for the other one's ancestors (added after an independent seeded
+		// change that let the first include function alone decide about directories was missed)
+		i := rapid.IntRange(0, len(paths)-1).Draw(t, "aim1")
+		j := rapid.IntRange(0, len(paths)-2).Draw(t, "aim2")
+		if j >= i {
+			j++
+		}
+		f := paths[i]
+		if rapid.Bool().Draw(t, "aimswap") {
+			f = vSwapCaseC27(f)
+		}
+		ps.Fold = []string{f}
+		ps.Plain = []string{paths[j]}
+		add([]string{"fold", "both-lists", "both-lists-anchored"})
 	case "reinclude":
 		// [broad, !dir, something below dir]: the directory is taken out of the match
 		// again, one of its descendants is matched by a later pattern
